@@ -112,7 +112,7 @@ class Model(object):
   """Static description: thread programs + object universe."""
 
   def __init__(self, programs, inits, keys=(1, 2), subs=(1, 2), ns_thread_local=True, max_list=4,
-               protect=()):
+               protect=(), extra_lists=(), init_heap=None):
     """programs: list of IR code (one per thread); inits: list of {reg: value or ('sym', name)}."""
     self.programs = programs
     self.inits = inits
@@ -140,6 +140,8 @@ class Model(object):
             self.ctx_ids.append(nxt)
           nxt += 1
     assert nxt < 2 ** W, 'too many allocation sites for the bit width'
+    self.list_ids = list(extra_lists) + self.list_ids
+    self.init_heap = dict(init_heap or {})
     self.stops = []
     for t, code in enumerate(programs):
       self.stops.append([pc for pc, ins in enumerate(code) if ins[0] == 'prim'])
@@ -266,6 +268,8 @@ class Model(object):
           s['r.%d.%s' % (t, r)] = sym_inputs[v[1]]
         else:
           s['r.%d.%s' % (t, r)] = A.const(v)
+    for k, v in self.init_heap.items():
+      s[k] = A.const(v, self.width(k))
     # run the thread-local prefix of every thread
     for t in range(self.T):
       s = self._continue(A, s, t, 0, A.true())
